@@ -183,6 +183,14 @@ def run(M, rep, tier, only=None):
     from . import c10
     c10.create_property_table(M, rep, R5)
 
+    # ---------------- R6 (shared with C05.R2): the same-block guard of the link lists tests identity -- a same-named entity of
+    # another block must be refused, not linked
+    R6 = rep.rule("C12.R6", "the membership test that guards linking is decided by the entity's id", floor=1,
+                  technique="dependency of every True-answering path on the item's id (shared with C05.R2)")
+    from .c05 import container_identity
+    n6ctx = Ctx(M, coarse=False)
+    container_identity(M, rep, R6, n6ctx, n6ctx)
+
     # ---------------- R3
     f = ctx.member("Block", "create_multi_tag")
     if f is None:
